@@ -44,6 +44,16 @@ func listenEngine(args []string) error {
 			las = append(las, la{host, port})
 			addrs = append(addrs, net.JoinHostPort(host, itoa(port)))
 		}
+		// the same address listed twice (a name and the address it maps to, a repeated -listen): the second
+		// bind fails on the first one's sockets, which is a bind failure like any other
+		dup := false
+		if i%9 == 4 {
+			k := r.intn(len(las))
+			las = append(las, las[k])
+			addrs = append(addrs, addrs[k])
+			na++
+			dup = true
+		}
 		// busy subset: per address none / udp / tcp / both
 		var holders []interface{ Close() error }
 		var busyTok []string
@@ -71,6 +81,9 @@ func listenEngine(args []string) error {
 				anyBusy = true
 			}
 			busyTok = append(busyTok, itoa(b))
+		}
+		if dup {
+			anyBusy = true
 		}
 		cancelKind := []string{"none", "immediate", "1ms", "ready", "random"}[r.intn(5)]
 		if !anyBusy && cancelKind == "none" {
